@@ -327,10 +327,16 @@ theorem optimize_nonunion_top {cfg : GenCfg} {e : EqEnv} {n : Nat} {x y : Ty}
       split at h <;> (rw [Except.pure_ok_iff] at h; subst h; simp [Ty.isUnion, Ty.isNull, Ty.isOpt])
     | _ => (simp [optimize, pure, Except.pure] at h; subst h; simp [Ty.isUnion, Ty.isNull, Ty.isOpt])
 
-/-- on opt-free members, the `other` category holds members only -/
-theorem splitMembers_other_subset {reg : StrRegistry} {ts : List Ty} (h : ∀ t ∈ ts, t.noOpt = true) :
+theorem hidden_false_of_noOpt {t : Ty} (h : t.noOpt = true) (hu : t.isUnion = false) :
+    SplitW.hidden t = false := by
+  cases t <;> simp_all [SplitW.hidden, Ty.noOpt, Ty.isUnion]
+
+/-- on opt-free members that are not unions themselves, the `other` category holds members only
+    (a member `.union ms` is spliced by the worklist: then `other` holds members of `ms`) -/
+theorem splitMembers_other_subset {reg : StrRegistry} {ts : List Ty} (h : ∀ t ∈ ts, t.noOpt = true)
+    (hu : ∀ t ∈ ts, t.isUnion = false) :
     ∀ t ∈ (splitMembers reg ts).other, t ∈ ts := by
-  rw [splitMembers_eq]
+  rw [splitMembers_plain reg (fun t ht => hidden_false_of_noOpt (h t ht) (hu t ht))]
   suffices hs : ∀ (l : List Ty) (s : Split), (∀ t ∈ l, t ∈ ts) → (∀ t ∈ s.other, t ∈ ts) →
       ∀ t ∈ (l.foldl (splitStep reg) s).other, t ∈ ts from
     hs ts {} (fun _ h => h) (by intro t ht; simp at ht)
@@ -361,7 +367,7 @@ theorem splitMembers_other_subset {reg : StrRegistry} {ts : List Ty} (h : ∀ t 
 theorem unionOther_elems {cfg : GenCfg} {e : EqEnv} {ts other : List Ty}
     (hm : ∀ m ∈ ts, m.noOpt = true ∧ m.isUnion = false) (h : unionOther cfg e ts = .ok other) :
     ∀ x ∈ other, x.isUnion = false ∧ x.isOpt = false ∧ (x = .null → Ty.null ∈ ts) := by
-  have hsub := splitMembers_other_subset (reg := cfg.reg) (fun t ht => (hm t ht).1)
+  have hsub := splitMembers_other_subset (reg := cfg.reg) (fun t ht => (hm t ht).1) (fun t ht => (hm t ht).2)
   have hmem : ∀ x ∈ ts, x.isUnion = false ∧ x.isOpt = false ∧ (x = .null → Ty.null ∈ ts) := by
     intro x hx
     refine ⟨(hm x hx).2, ?_, fun e => e ▸ hx⟩
